@@ -32,7 +32,7 @@ PROBES = [
     ("and-zero", 4,
      "`and reg, 0` is treated as read-only: the cleared register is not written back and a later reload restores the old value"),
 ]
-ALL_FEATURES = 63
+ALL_FEATURES = 255
 
 
 def parse_blocks(text):
@@ -96,10 +96,12 @@ def run(ck):
 
     if ck.replay:
         rp = json.load(open(ck.replay))["replay"]
-        if "probe" in rp:
+        if rp.get("probe") == "jt7":
+            rc, out, err = run_harness(impl, ["jt7", 60, 30])
+        elif "probe" in rp:
             rc, out, err = run_harness(impl, ["probe", rp["probe"], 200, 1])
         elif rp.get("a64"):
-            rc, out, err = run_harness(impl, ["a64", rp["seed"], rp["index"], 1, 1])
+            rc, out, err = run_harness(impl, ["a64", rp["seed"], rp["index"], 1, 1, rp.get("lists", 1)])
         else:
             rc, out, err = run_harness(impl, [rp["seed"], rp["index"], 1, 2000, rp.get("features", ALL_FEATURES), 1])
         print(out[-20000:])
@@ -124,18 +126,46 @@ def run(ck):
         mv = mres.get(0, ("none", ""))
         probe_results[name] = {"execution": verdict or "ok", "validator": mv[0]}
         if verdict is not None:
-            features &= ~bits
             ck.violation("C05/probe/" + name, "%s [%s; validator: %s %s]" % (what, verdict, mv[0], mv[1][:160]),
                          {"probe": name, "execution": verdict, "validator": list(mv)})
         elif mv[0] != "ok":
             # executes correctly on 200 inputs but the proven validator refuses it
-            features &= ~bits
             ck.violation("C05/probe/" + name, "%s [validator: %s %s; no diverging input among 200]" % (what, mv[0], mv[1][:200]),
                          {"probe": name, "validator": list(mv), "broken": "RaIRModel.validate on probe " + name}, no_input=True)
+    # recorded, not yet repaired defect: a block named by several jump-table entries / tables and entered by falling through
+    # (the generator shape "mode 7", never used by the random stream): 60 fixed programs, the first miscompiled one is reported
+    rc, out, err = run_harness(impl, ["jt7", 60, 30], timeout=300)
+    _, mres, _ = run_model(model, out) if rc == 0 else (0, {}, "")
+    jt_bad = [b for b in parse_blocks(out) if (b["X"] or "").startswith("diverge") or mres.get(b["index"], ("none", ""))[0] != "ok"]
+    probe_results["jump-table-merged-targets"] = {"programs": 60, "miscompiled_or_refused": len(jt_bad), "harness_rc": rc}
+    if rc != 0 or jt_bad:
+        b0 = jt_bad[0] if jt_bad else None
+        ck.violation("C05/probe/jump-table-merged-targets",
+                     "annotated jump tables whose entries are bound back to back at the end of the function (one block named by several entries/tables, "
+                     "also entered by falling through) are miscompiled: %s" % (("program jt7 index %d: %s; validator: %s" % (b0["index"], b0["X"], " ".join(mres.get(b0["index"], ("none", "")))[:200])) if b0 else "harness rc=%d" % rc),
+                     {"probe": "jt7", "index": b0["index"] if b0 else -1, "execution": b0["X"] if b0 else None},
+                     no_input=not (rc != 0 or any((b["X"] or "").startswith("diverge") for b in jt_bad)))
+    # recorded, not yet repaired defect: AArch64 register lists (ld1/st1 {v,v,..}) - the consecutive OUT registers are
+    # chosen without regard to live values. 120 fixed programs with lists; while the defect is present the random AArch64
+    # stream runs without lists.
+    rc, out, err = run_harness(impl, ["a64", 777, 0, 120, 0, 1], timeout=600)
+    _, mres, _ = run_model(model, out)
+    blocks = parse_blocks(out)
+    lst_bad = [b for b in blocks if mres.get(b["index"], ("none", ""))[0] != "ok"]
+    a64_lists = 1 if (rc == 0 and len(blocks) == 120 and not lst_bad) else 0
+    probe_results["a64-register-lists"] = {"programs": len(blocks), "refused": len(lst_bad), "harness_rc": rc}
+    if not a64_lists:
+        b0 = lst_bad[0] if lst_bad else None
+        mv0 = mres.get(b0["index"], ("none", "")) if b0 else ("none", "")
+        ce = "ir-counterexample" in mv0[1]
+        ck.violation("C05/probe/a64-list-out-clobber",
+                     "AArch64 ld1 {v..} register lists: the consecutive destination registers overwrite live values (or the allocator crashes): %s" %
+                     (("program a64 seed 777 index %d: %s %s" % (b0["index"], mv0[0], mv0[1][:300])) if b0 else "harness rc=%d after %d programs" % (rc, len(blocks))),
+                     {"a64": True, "seed": 777, "index": b0["index"] if b0 else len(blocks), "lists": 1}, no_input=not (ce or rc != 0))
     ck.log("probes: %s -> generator features %d" % (probe_results, features))
 
     # ------------------------------------------------------------------ random stream
-    nprog = 2400 if ck.tier == "quick" else 60000
+    nprog = 1800 if ck.tier == "quick" else 60000
     inputs = 24 if ck.tier == "quick" else 60
     seed = ck.seed
     shard = 40 if ck.tier == "quick" else 250
@@ -154,6 +184,7 @@ def run(ck):
     unsupported_why = {}
     samples = []
     nontrivial = 0
+    disagreements = 0
     for first, count, rc, out, mrc, mres, errtxt in results:
         blocks = parse_blocks(out)
         if rc != 0 or mrc != 0 or len(blocks) != count:
@@ -195,6 +226,8 @@ def run(ck):
             if len(samples) < 6 and (b["slot"] or idx < 2):
                 samples.append({"seed": seed, "index": idx, "head": b["head"], "execution": x, "validator": mv[0] + " " + mv[1][:60],
                                 "source_instrs": b["nS"], "target_instrs": b["nT"], "inserted": b["ins"]})
+            if x.startswith("diverge") or (not b["U"] and mv[0] != "ok"):
+                disagreements += 1
             if x.startswith("diverge"):
                 ck.violation("C05/miscompile", "compiled function differs from the source program: %s; validator: %s %s (seed=%d index=%d features=%d)" %
                              (x, mv[0], mv[1][:200], seed, idx, features), dict(replay_cmd(seed, idx, features), execution=x, validator=list(mv)))
@@ -214,13 +247,13 @@ def run(ck):
                                  "execute like the source program" % (seed, idx, features, mv[0], mv[1][:500]),
                                  dict(replay_cmd(seed, idx, features), validator=list(mv), broken="RaIRModel.validate (clause at the reported target pc)"), no_input=True)
     # ------------------------------------------------------------------ AArch64 stream: validator only (no AArch64 CPU here)
-    na64 = 900 if ck.tier == "quick" else 20000
+    na64 = 600 if ck.tier == "quick" else 20000
     ashard = 30 if ck.tier == "quick" else 200
     aranges = [(i, min(ashard, na64 - i)) for i in range(0, na64, ashard)]
 
     def one_a64(r):
         first, count = r
-        rc, out, err = run_harness(impl, ["a64", seed, first, count], timeout=1500)
+        rc, out, err = run_harness(impl, ["a64", seed, first, count, 0, a64_lists], timeout=1500)
         mrc, mres, merr = run_model(model, out, timeout=2500)
         return first, count, rc, out, mrc, mres, (err[-300:] + merr[-300:])
     with ThreadPoolExecutor(max_workers=vlib.NPROC) as ex:
@@ -230,7 +263,7 @@ def run(ck):
         blocks = parse_blocks(out)
         if rc != 0 or mrc != 0 or len(blocks) != count:
             bad = first + max(0, len(blocks) - 1)
-            rc1, out1, err1 = run_harness(impl, ["a64", seed, bad, 1], timeout=300)
+            rc1, out1, err1 = run_harness(impl, ["a64", seed, bad, 1, 0, a64_lists], timeout=300)
             if rc1 != 0:
                 ck.violation("C05/a64/crash", "AArch64 allocator/harness crashed (rc=%d) on generated program seed=%d index=%d" % (rc1, seed, bad),
                              {"a64": True, "seed": seed, "index": bad})
@@ -260,12 +293,13 @@ def run(ck):
             if mv[0] == "ok":
                 a64["validated_ok"] += 1
             else:
+                disagreements += 1
                 # no AArch64 CPU: the search oracle is the pair of extracted IR interpreters run by the driver under random
                 # instruction semantics and inputs (a counterexample is a concrete diverging run of the dumped pair)
                 ce = mv[1][mv[1].find("ir-counterexample"):] if "ir-counterexample" in mv[1] else None
                 if ce:
                     ck.violation("C05/a64/miscompile", "AArch64 allocation of program seed=%d index=%d changes the meaning of the program: %s; validator: %s %s" %
-                                 (seed, idx, ce[:300], mv[0], mv[1][:200]), {"a64": True, "seed": seed, "index": idx, "validator": list(mv), "counterexample": ce})
+                                 (seed, idx, ce[:300], mv[0], mv[1][:200]), {"a64": True, "seed": seed, "index": idx, "lists": a64_lists, "validator": list(mv), "counterexample": ce})
                 else:
                     ck.violation("C05/a64/validator-reject", "the proven validator refuses the AArch64 allocation of program seed=%d index=%d (%s %s); no AArch64 "
                                  "execution oracle is available on this host" % (seed, idx, mv[0], mv[1][:400]),
@@ -281,8 +315,9 @@ def run(ck):
                      {"broken": "theorem " + o["name"], "file": "coq/theories/Properties/Properties_C05.v"}, no_input=True)
     ck.log("stream: %s" % stats)
     return ck.finish(
-        "proof",
-        {"evaluations": stats["programs"] * inputs + a64["programs"], "distinct_nontrivial": nontrivial,
+        "translation_validation",
+        {"programs": stats["validated_ok"] + a64["validated_ok"], "disagreements_checked": disagreements,
+         "evaluations": stats["programs"] * inputs + a64["programs"], "distinct_nontrivial": nontrivial,
          "rule": "programs generated from VERIF_SEED (index mod 6 = pressure class: 1-6, 8-13, 13-17, 18-37, 40-99, 100-200 simultaneously live values; "
                  "straight-line, diamonds, loops, irreducible jumps; mul/div/shift-by-cl fixed registers, partial writes, same-register idioms, "
                  "register-or-memory operands); a program is non-trivial when the allocator inserted at least one instruction or replaced a register "
@@ -294,7 +329,7 @@ def run(ck):
                      "InstAPI::query_rw_info + the virtual register size (partial-write rule, same-register/immediate idioms written by hand), to strip "
                      "prolog/epilog (compared with emit_prolog/emit_epilog of the final frame) and to classify inserted instructions (mov/movzx/xchg only)",
                      "instruction semantics are abstracted to uses/defs (their truth is C12's subject); flags are six pseudo registers",
-                     "AArch64 (GP w/x and 128-bit vector registers, calls through a register with register and stack arguments) is validated but NOT executed (no AArch64 CPU/emulator on this host); x86-64 GP virtual registers of 1/2/4/8 bytes, calls of C helpers with register and stack arguments; 16-byte vector registers (SSE2 integer subset); no jump tables, 32/64-byte vectors, mask registers, or immediates as call arguments in this version (function arguments in registers and on the stack are covered)",
+                     "AArch64 (GP w/x and 128-bit vector registers, calls through a register with register and stack arguments) is validated but NOT executed (no AArch64 CPU/emulator on this host); x86-64 GP virtual registers of 1/2/4/8 bytes, calls of C helpers with register and stack arguments; 16-byte vector registers (SSE2 integer subset), AVX functions with 32-byte vectors, 64-bit mask registers and a re-aligned stack, annotated jump tables; no 64-byte vectors, x86-32, or immediates as call arguments in this version (function arguments in registers and on the stack are covered)",
                      "generated programs never read a virtual register beyond its size and define every register on every path"],
         checker_cmd="coqc (Coq 8.16.1) -Q coq/theories Verif coq/theories/Properties/Properties_C05.v  [full .vo build of its dependencies]",
         trusted_base=["Coq 8.16.1 kernel incl. vm_compute (no native_compute)", "no axioms: every theorem 'Closed under the global context'",
